@@ -6,12 +6,14 @@ import (
 	"bytes"
 	"fmt"
 	"reflect"
+	"runtime/debug"
 	"sort"
 	"strings"
 
 	"github.com/z7zmey/php-parser/pkg/ast"
 	"github.com/z7zmey/php-parser/pkg/token"
 	"github.com/z7zmey/php-parser/pkg/visitor/dumper"
+	"github.com/z7zmey/php-parser/pkg/visitor/formatter"
 	"github.com/z7zmey/php-parser/pkg/visitor/nsresolver"
 	"github.com/z7zmey/php-parser/pkg/visitor/printer"
 	"github.com/z7zmey/php-parser/pkg/visitor/traverser"
@@ -182,5 +184,53 @@ func opResolve(t Task) Result {
 		out = append(out, map[string]interface{}{"kind": kindName(n), "s": s, "e": e, "name": name})
 	}
 	res["map"] = out
+	return res
+}
+
+func init() { register("format_check", opFormatCheck) }
+
+func formatAndPrint(root ast.Vertex) string {
+	root.Accept(formatter.NewFormatter())
+	var buf bytes.Buffer
+	root.Accept(printer.NewPrinter(&buf))
+	return buf.String()
+}
+
+// format_check: parse -> format -> print (F) -> parse -> format -> print (F2)
+func opFormatCheck(t Task) Result {
+	src := s2b(tStr(t, "src"))
+	ver := parseVersion(t)
+	p := doParse(src, ver, true)
+	if isNilVertex(p.root) || len(p.errs) > 0 {
+		return Result{"skip": true}
+	}
+	res := Result{"sfp0": fingerprint(p.root, fpOpts{values: true})}
+	stage := "format"
+	defer func() {
+		if r := recover(); r != nil {
+			res["fmt_panic"] = fmt.Sprint(r)
+			res["stage"] = stage
+			res["site"] = panicSite(string(debug.Stack()))
+			panic(r)
+		}
+	}()
+	f1 := formatAndPrint(p.root)
+	res["F"] = b2s([]byte(f1))
+	stage = "reparse"
+	p2 := doParse([]byte(f1), ver, true)
+	res["nerr1"] = len(p2.errs)
+	if len(p2.errs) > 0 {
+		res["err1"] = p2.errs[0].Msg
+	}
+	if isNilVertex(p2.root) || len(p2.errs) > 0 {
+		return res
+	}
+	res["sfp1"] = fingerprint(p2.root, fpOpts{values: true})
+	stage = "reformat"
+	f2 := formatAndPrint(p2.root)
+	res["idempotent"] = f2 == f1
+	if f2 != f1 {
+		res["F2"] = b2s([]byte(f2))
+	}
 	return res
 }
